@@ -33,6 +33,8 @@ def attribute(req, event, ev=None):
         return "C06"
     if name in ("lim", "cand-limits", "candl-limits", "TLimits"):
         return "C08"
+    if (event in ("cand", "candl") or name.startswith("cand")) and ev is not None and ev.get("st", {}).get("lim"):
+        return "C08"      # a candidate set computed under stored level limits
     if event in ("loadc", "cand", "candl", "begin", "finish") or name.startswith("cand"):
         return "C09"
     if event in ("copy", "copyctor", "assign") or name == "other-slot":
@@ -492,3 +494,117 @@ def replay(ctx, path, prop, obs_mask):
     rc = 1 if ctx.violations or ctx.known_hits else 0
     print("replay of %s / %s: %s" % (sf, label, "rejected again" if rc else "accepted"))
     return rc
+
+
+# ------------------------------------------------------------------------------------------ spec -> code (GridMC Gen)
+
+def mc_cfg_text(name, emit, maxlen=None, maxpts=None, maxdepth=None):
+    txt = open(os.path.join(vf.SPEC, "GridMC-%s.cfg" % name)).read()
+    txt = txt.replace("EMIT = FALSE", "EMIT = %s" % ("TRUE" if emit else "FALSE"))
+    if maxlen is not None:
+        txt = re.sub(r"MAXLEN = \d+", "MAXLEN = %d" % maxlen, txt)
+    if maxpts is not None:
+        txt = re.sub(r"MAXPTS = \d+", "MAXPTS = %d" % maxpts, txt)
+    if maxdepth is not None:
+        txt = re.sub(r"MAXDEPTH = \d+", "MAXDEPTH = %d" % maxdepth, txt)
+    if emit:
+        txt = re.sub(r"INVARIANTS.*\n", "", txt)
+        txt = re.sub(r"PROPERTIES.*\n", "", txt)
+        txt += "ACTION_CONSTRAINT Emit\n"
+    return txt
+
+
+def cfg_constants(name):
+    txt = open(os.path.join(vf.SPEC, "GridMC-%s.cfg" % name)).read()
+    c = {}
+    for k in ("FAM", "RULE"):
+        c[k] = re.search(k + r' = "([^"]+)"', txt).group(1)
+    for k in ("ORDER", "D", "OUTS"):
+        c[k] = int(re.search(k + r" = (-?\d+)", txt).group(1))
+    return c
+
+
+def script_to_lines(script, c, label):
+    """GridMC history -> driver script (skeleton: numeric-dependent outcomes are whatever the code produces)"""
+    fam, d, outs = c["FAM"], c["D"], c["OUTS"]
+    L = ["SCEN " + label]
+    ep = 0
+    for st in script:
+        a = st["a"]
+        ll = st.get("ll", [])
+        if a == "make":
+            if fam in ("localp", "wavelet"):
+                line = "make %s %d %d %d %d" % (fam, d, outs, st["depth"], c["ORDER"])
+                if fam == "localp":
+                    line += " " + c["RULE"]
+                line += " " + ivec(ll)
+            else:
+                line = "make %s %d %d %d %s" % (fam, d, outs, st["depth"], st["type"])
+                if fam != "fourier":
+                    line += " " + c["RULE"]
+                line += " 0 " + ivec(ll)
+                if fam == "global":
+                    line += " 0 0"
+            L.append(line)
+        elif a == "load":
+            ep += 1
+            L.append("load %d" % ep)
+        elif a == "surp":
+            rank = -1 if st["all"] else 2
+            if fam in ("localp", "wavelet"):
+                L.append("surpl %d -1 classic %s 0" % (rank, ivec(ll)))
+            else:
+                L.append("surp %d -1 %s" % (20 if st["all"] else 2, ivec(ll)))
+        elif a == "update":
+            L.append("update %d %s %s %s" % (st["depth"], st["type"], ivec(st.get("aw", [])), ivec(ll)))
+        elif a == "aniso":
+            L.append("aniso iptotal %d 0 %s" % (st["mg"], ivec(ll)))
+        elif a in ("clear", "merge", "begin", "finish", "clearlimits"):
+            L.append(a)
+        elif a == "deliver":
+            ep += 1
+            pts = st["p"]
+            if fam in ("localp", "wavelet"):
+                L.append("candl -1 -1 classic 0")
+            else:
+                L.append("cand level 0 0 0")
+            L.append("loadc %d %d %s" % (ep, len(pts), " ".join(" ".join(str(x) for x in p) for p in pts)))
+    return "\n".join(L) + "\n"
+
+
+def mc_and_scripts(ctx, names, rnd, cap, maxlen=None, maxpts=None, mc=True, genlen=3):
+    """model-check the design for the named family configurations and return replay scripts (one per abstract edge)"""
+    wd = vf.workdir(ctx.prop.lower() + "-mc")
+    out = []
+
+    def one(name):
+        res = {}
+        if mc:
+            c = os.path.join(wd, "MC-%s.cfg" % name)
+            open(c, "w").write(mc_cfg_text(name, False, maxlen, maxpts))
+            res["mc"] = vf.run_tlc("GridMC.tla", c, workers=8, timeout=1800, xmx="6g")
+        c = os.path.join(wd, "Gen-%s.cfg" % name)
+        open(c, "w").write(mc_cfg_text(name, True, genlen, maxpts))     # shorter histories: one script per abstract edge is printed
+        res["gen"] = vf.run_tlc("GridMC.tla", c, workers=1, timeout=1800, xmx="6g")
+        return res
+
+    results = vf.parallel_map(one, names, nproc=3)
+    for name, res in zip(names, results):
+        if mc:
+            r = res["mc"]
+            vf.tlc_must_pass(r, "GridMC " + name)
+            ctx.add_tlc(r, "GridMC:" + name)
+            if r.violated:
+                ctx.report("spec:GridMC:%s:%s" % (name, r.violated), "the design model GridMC (%s) violates %s" % (name, r.violated), {"tlc": r.error_trace[:6000]})
+        r = res["gen"]
+        vf.tlc_must_pass(r, "GridMC Gen " + name)
+        ctx.add_tlc(r, "GridGen:" + name)
+        scripts = [json.loads(json.loads(m)) for m in re.findall(r'<<"SCRIPT", ("(?:[^"\\]|\\.)*")>>', r.out)]
+        if len(scripts) > cap:
+            rnd.shuffle(scripts)
+            scripts = scripts[:cap]
+        c = cfg_constants(name)
+        if scripts:
+            ctx.sample({"kind": "TLC-generated history (spec->code)", "config": name, "script": scripts[len(scripts) // 2]})
+        out.append(("gen-" + name, [script_to_lines(s, c, "%s-%d" % (name, i)) for i, s in enumerate(scripts)]))
+    return out
